@@ -2,6 +2,7 @@ package rcall
 
 import (
 	"github.com/modernizing/coca/pkg/domain/core_domain"
+	"strings"
 )
 
 type RCallGraph struct {
@@ -82,7 +83,7 @@ func (c RCallGraph) BuildRCallChain(funcName string, methodMap map[string][]stri
 				lastChild = child
 				arrayResult = arrayResult + c.BuildRCallChain(child, methodMap)
 			}
-			newCall := "\"" + child + "\" -> \"" + funcName + "\";\n"
+			newCall := "\"" + escapeStr(child) + "\" -> \"" + escapeStr(funcName) + "\";\n"
 			arrayResult = arrayResult + newCall
 		}
 
@@ -90,4 +91,8 @@ func (c RCallGraph) BuildRCallChain(funcName string, methodMap map[string][]stri
 
 	}
 	return "\n"
+}
+
+func escapeStr(name string) string {
+	return strings.ReplaceAll(name, "\"", "\\\"")
 }
